@@ -479,7 +479,7 @@ func TestC24(t *testing.T) {
 		jobs = append(jobs, job{id: "x/" + n, name: n, text: c24Extras[n], src: c24Extras, deps: deps})
 	}
 	nCorpus := len(jobs)
-	nModels := r.N(250, 5000)
+	nModels := r.N(800, 8000)
 
 	r.Par(nCorpus+nModels, func(i int) {
 		if i < nCorpus {
